@@ -154,7 +154,7 @@ pub mod authorizer {
         //@ loop 1 invariant_except_break flag: successful <==> (check.kind is Reject && verif_k0 > 0)
         //@ loop 1 ensures done: successful ==> authz_check_ok(*old(self), i as int)
         //@ loop 1 decreases check.queries@.len() - verif_k0
-        //@ ghost before "let res = match check.kind {" #0 :: proof { evals = evals + 1; } proof { lemma_tset(rule_trusted_origins.0.inner@, query.scopes@, authorizer_trusted_origins.0.inner@, usize::MAX, self.public_key_to_block_id@); }
+        //@ ghost before "let res = match check.kind {" #0 :: proof { assert(reads == evals); evals = evals + 1; } proof { lemma_tset(rule_trusted_origins.0.inner@, query.scopes@, authorizer_trusted_origins.0.inner@, usize::MAX, self.public_key_to_block_id@); }
         //@ loop 2 invariant frame: frame_eq(*self, *old(self)) && j <= blocks@[0].checks@.len()
         //@ loop 2 invariant sound: errors@.len() == 0 ==> forall|jj: int| 0 <= jj < j ==> #[trigger] block_check_ok(*old(self), 0, jj)
         //@ loop 2 invariant carry: errors@.len() == 0 ==> authz_checks_ok(*old(self))
@@ -167,7 +167,7 @@ pub mod authorizer {
         //@ loop 3 invariant carry: errors@.len() == 0 ==> authz_checks_ok(*old(self))
         //@ loop 3 decreases check.queries@.len() - verif_k1
         //@ ghost before "let mut verif_k1 = 0;" :: proof { lemma_tset(authority_trusted_origins.0.inner@, blocks@[0].scopes@, default_trust(), 0usize, self.public_key_to_block_id@); }
-        //@ ghost before "let res = match check.kind {" #1 :: proof { evals = evals + 1; } proof { lemma_tset(rule_trusted_origins.0.inner@, query.scopes@, authority_trusted_origins.0.inner@, 0usize, self.public_key_to_block_id@); }
+        //@ ghost before "let res = match check.kind {" #1 :: proof { assert(reads == evals); evals = evals + 1; } proof { lemma_tset(rule_trusted_origins.0.inner@, query.scopes@, authority_trusted_origins.0.inner@, 0usize, self.public_key_to_block_id@); }
         //@ loop 4 invariant frame: frame_eq(*self, *old(self)) && i <= self.policies@.len()
         //@ loop 4 invariant_except_break none_before: policy_result is None && forall|jj: int| 0 <= jj < i ==> !pol_matches(*old(self), jj)
         //@ loop 4 ensures decided: frame_eq(*self, *old(self)) && (match policy_result { None => forall|jj: int| 0 <= jj < old(self).policies@.len() ==> !pol_matches(*old(self), jj), Some(Ok(p)) => first_policy(*old(self), p as int) && old(self).policies@[p as int].kind == PolicyKind::Allow, Some(Err(p)) => first_policy(*old(self), p as int) && old(self).policies@[p as int].kind == PolicyKind::Deny })
@@ -175,7 +175,7 @@ pub mod authorizer {
         //@ loop 5 invariant frame: frame_eq(*self, *old(self)) && i < self.policies@.len() && verif_k2 <= policy.queries@.len()
         //@ loop 5 invariant_except_break none_so_far: policy_result is None && forall|k: int| 0 <= k < verif_k2 ==> !q_one(self.world, conv_rule(#[trigger] policy.queries@[k]), usize::MAX, authz_dflt(*old(self)), self.public_key_to_block_id@)
         //@ loop 5 decreases policy.queries@.len() - verif_k2
-        //@ ghost before "let res = self.world.query_match(" :: proof { evals = evals + 1; } proof { lemma_tset(rule_trusted_origins.0.inner@, query.scopes@, authorizer_trusted_origins.0.inner@, usize::MAX, self.public_key_to_block_id@); }
+        //@ ghost before "let res = self.world.query_match(" :: proof { assert(reads == evals); evals = evals + 1; } proof { lemma_tset(rule_trusted_origins.0.inner@, query.scopes@, authorizer_trusted_origins.0.inner@, usize::MAX, self.public_key_to_block_id@); }
         //@ ghost before "break 'policies_test;" :: proof { assert(q_one(self.world, conv_rule(policy.queries@[verif_k2 as int]), usize::MAX, authz_dflt(*old(self)), self.public_key_to_block_id@)); assert(pol_matches(*old(self), i as int)); }
         //@ loop 6 invariant frame: frame_eq(*self, *old(self)) && i <= blocks@.len() - 1
         //@ loop 6 invariant sound: errors@.len() == 0 ==> forall|bb: int, jj: int| 1 <= bb < i + 1 && 0 <= jj < blocks@[bb].checks@.len() ==> #[trigger] block_check_ok(*old(self), bb, jj)
@@ -196,11 +196,11 @@ pub mod authorizer {
         //@ loop 8 invariant carry: errors@.len() == 0 ==> authz_checks_ok(*old(self)) && authority_checks_ok(*old(self))
         //@ loop 8 decreases check.queries@.len() - verif_k3
         //@ ghost before "let mut j = 0; while j < block.checks.len()" :: proof { lemma_tset(block_trusted_origins.0.inner@, blocks@[i + 1].scopes@, default_trust(), (i + 1) as usize, self.public_key_to_block_id@); }
-        //@ ghost before "let res = match check.kind {" #2 :: proof { evals = evals + 1; } proof { lemma_tset(rule_trusted_origins.0.inner@, query.scopes@, block_trusted_origins.0.inner@, (i + 1) as usize, self.public_key_to_block_id@); }
-        //@ ghost before "if now >= time_limit {" #0 :: proof { reads = reads + 1; }
-        //@ ghost before "if now >= time_limit {" #1 :: proof { reads = reads + 1; }
-        //@ ghost before "if now >= time_limit {" #2 :: proof { reads = reads + 1; }
-        //@ ghost before "if now >= time_limit {" #3 :: proof { reads = reads + 1; }
+        //@ ghost before "let res = match check.kind {" #2 :: proof { assert(reads == evals); evals = evals + 1; } proof { lemma_tset(rule_trusted_origins.0.inner@, query.scopes@, block_trusted_origins.0.inner@, (i + 1) as usize, self.public_key_to_block_id@); }
+        //@ ghost before "if now >= time_limit {" #0 :: proof { assert(reads + 1 == evals); reads = reads + 1; }
+        //@ ghost before "if now >= time_limit {" #1 :: proof { assert(reads + 1 == evals); reads = reads + 1; }
+        //@ ghost before "if now >= time_limit {" #2 :: proof { assert(reads + 1 == evals); reads = reads + 1; }
+        //@ ghost before "if now >= time_limit {" #3 :: proof { assert(reads + 1 == evals); reads = reads + 1; }
         //@ loop 0 invariant clock: reads == evals
         //@ loop 1 invariant clock: reads == evals
         //@ loop 2 invariant clock: reads == evals
